@@ -328,6 +328,86 @@ def model_eval(shard_id, terms):
     return res
 
 
+# ---- stream 3 (specification only, Python): raw error messages and failing calls reached through other call paths
+MESSAGES = ["", "one line", "two\nlines", "three\nlines\nhere", "  leading blanks", "trailing newline\n", "\nleading newline", "x" * 400,
+            "\u00e9\u65e5\u672c", "with: colon", "tab\there", "Error: nested"]
+
+
+def stream3_cases(rng, so, n):
+    """-> list of {text, exp_out (exact stdout), fail: None | message, what}"""
+    out = []
+    fn0 = 'function __fn0\n\targ "0"\n\tcall_lib %s "failif2"\n\tret\nend\n' % quote(so)
+    fn1 = 'function __fn1\n\targ "0"\n\tcall "x.mmm#__fn0"\n\tret\nend\n'
+    tail = '\tmake_str "after"\n\tprintn "*"\n\tvoid\n\tret_mod\nend\n'
+    for m in MESSAGES:
+        text = 'function __module__\n\tmake_str "before"\n\tprintn "*"\n\tvoid\n%s\n\tcall_lib %s "failmsg"\n\tprintn "*"\n\tvoid\n' % (push_text(("str", m)), quote(so)) + tail
+        out.append({"text": text, "exp_out": "<Str>before\n", "fail": m, "what": "message %r" % m[:30]})
+    for _ in range(n):
+        ctxk = rng.choice(["call", "call2", "map", "map"])
+        if ctxk in ("call", "call2"):
+            ks = [rng.choice([1, 3, 5, 2]) for _ in range(rng.randint(1, 4))]
+            body, exp, fail = "", "", None
+            for k in ks:
+                body += '\tmake_int "%d"\n\tcall "x.mmm#__fn%d"\n\tprintn "*"\n\tvoid\n' % (k, 0 if ctxk == "call" else 1)
+                if k == 2 and fail is None:
+                    fail = "probe-failif:2"
+                if fail is None:
+                    exp += "<Int>%d\n" % (2 * k)
+            text = fn0 + (fn1 if ctxk == "call2" else "") + "function __module__\n" + body + tail
+            if fail is None:
+                exp += "<Str>after\n"
+            out.append({"text": text, "exp_out": exp, "fail": fail, "what": "%s %r" % (ctxk, ks)})
+        else:
+            ks = [rng.choice([1, 3, 5, 2, 4]) for _ in range(rng.randint(1, 4))]
+            vec = '\tmake_vector "%d"\n\tstore_fast "#0"\n' % len(ks) + "".join('\tmake_int "%d"\n\tvec_op "+#0"\n' % k for k in ks) + '\tdelete_name_reference_scoped "#0"\n\tstore "v"\n'
+            text = (fn0 + 'function __module__\n\tmake_function "x.mmm#__fn0"\n\tstore "probe"\n' + vec +
+                    '\tload "v"\n\tstore_fast "#1"\n\tload_fast "#1"\n\tlookup "map"\n\tstore_fast "#2"\n\tload "probe"\n\tstore_fast "#3"\n\tload_fast "#3"\n'
+                    '\tld_self "#1"\n\tload_fast "#2"\n\tcall\n\tstore "w"\n\tload "w"\n\tprintn "*"\n\tvoid\n' + tail)
+            fail = "probe-failif:2" if 2 in ks else None
+            exp = "" if fail else "<Vector>[%s]\n<Str>after\n" % ", ".join(str(2 * k) for k in ks)
+            out.append({"text": text, "exp_out": exp, "fail": fail, "what": "map callback over %r" % ks, "loose_list": True})
+    return out
+
+
+def run_stream3(ctx, binary, so):
+    base = ctx.mktemp()
+    cases = stream3_cases(ctx.rng, so, 60 if ctx.quick() else 600)
+
+    def one(c):
+        d = tempfile.mkdtemp(prefix="g-", dir=base)
+        with open(os.path.join(d, "x.transpiled.mmm"), "w", encoding="utf8") as f:
+            f.write(c["text"])
+        t = programs.run_bin(binary, ["transpile", "x.transpiled.mmm"], d)
+        r = programs.run_bin(binary, ["execute", "x.mmm"], d, {"MSCRIPT_VERIF_TYPED_PRINT": "1"}) if t[0] == 0 else None
+        shutil.rmtree(d, ignore_errors=True)
+        return t, r
+    n = fails = 0
+    for c, (t, r) in zip(cases, programs.pmap(one, cases)):
+        replay = {"bytecode_text": c["text"], "what": c["what"], "how": "save as x.transpiled.mmm; mscript transpile x.transpiled.mmm; MSCRIPT_VERIF_TYPED_PRINT=1 mscript execute x.mmm"}
+        if r is None:
+            ctx.report("ffi-program-not-transpiled", "hand-written bytecode was rejected by transpile: %s" % (t[1] + t[2])[-300:], dict(replay, transpile=t))
+            continue
+        n += 1
+        rc, out, err = r
+        replay.update({"rc": rc, "stdout": out[-800:], "stderr": err[-800:]})
+        got = re.sub(r"<[A-Za-z]+>(?=\d|-)", "", out) if c.get("loose_list") and c["fail"] is None else out
+        want = re.sub(r"<[A-Za-z]+>(?=\d|-)", "", c["exp_out"]) if c.get("loose_list") and c["fail"] is None else c["exp_out"]
+        if c["fail"] is None:
+            if rc != 0 or got != want:
+                ctx.report("ffi-result-not-delivered", "%s: exit %s, stdout %r, expected %r" % (c["what"], rc, out[-200:], c["exp_out"][-200:]), replay)
+            continue
+        fails += 1
+        if rc == 0:
+            ctx.report("ffi-error-not-raised", "the program finished normally although the foreign function raised an error (%s)" % c["what"], replay)
+        elif "after" in out or out != c["exp_out"]:
+            ctx.report("ffi-later-instruction-ran", "%s: stdout %r, expected exactly %r (nothing after the failing call)" % (c["what"], out[-200:], c["exp_out"][-200:]), replay)
+        elif "FFI: " not in err or any(line not in err for line in c["fail"].split("\n")):
+            ctx.report("ffi-error-message-lost", "%s: the run-time error does not carry the raised message %r: %r" % (c["what"], c["fail"][:120], err[-300:]), replay)
+    ctx.cov["stream3"] = {"programs": n, "with_raised_error": fails,
+                          "rule": "raw error messages (empty, several lines, long, non-ASCII) raised verbatim; a failing foreign call reached through `call`, two nested calls and the callback of the built-in `map`"}
+    return n
+
+
 def run(ctx):
     ok = core.coq_props(ctx, "Props/C19.v")
     binary = core.build_repo()
@@ -454,7 +534,9 @@ def run(ctx):
         if idx in (3, 20, 77):
             ctx.sample({"bytecode_text": text, "rc": rc, "stdout": out[:600], "probe_log": log[:600], "stderr_tail": err[-300:], "model_status": pred["status"]})
 
-    ctx.cov["evaluations"] = len(cases)
+    n3 = run_stream3(ctx, binary, so)
+    spec_fail += sum(1 for v in ctx.viol if v[0].startswith("ffi-"))
+    ctx.cov["evaluations"] = len(cases) + n3
     ctx.cov["distinct_nontrivial"] = nontrivial
     ctx.cov["exhaustive"] = True
     ctx.cov["exhaustive_part"] = "all 324 ordered pairs of (library in {probe 1, probe 2, missing}, symbol in {echo, first, nothing, fail, only2, no_such_symbol}) as two-call histories"
